@@ -10,6 +10,7 @@ import Crv.Driver.Lock
 import Crv.Driver.Disk
 import Crv.Driver.Pem
 import Crv.Driver.Chunk
+import Crv.Driver.Loader
 open Crv.Driver
 
 /-- One model state per stream kind (DESIGN.md Appendix A). -/
@@ -39,6 +40,7 @@ def stepLine (st : DriverState) (line : String) : DriverState × String :=
   | "disk" :: rest => let (s', out) := Disk.step st.disk rest; ({ st with disk := s' }, out)
   | "pem" :: rest => (st, stepPem rest)
   | "chunk" :: rest => let (s', out) := Chunk.step st.chunk rest; ({ st with chunk := s' }, out)
+  | "ld" :: rest => (st, stepLoader rest)
   | _ => (st, "bad-op")
 
 partial def loop (h : IO.FS.Stream) (out : IO.FS.Stream) (st : DriverState) : IO Unit := do
